@@ -1,7 +1,7 @@
 (* C05 — Lexical conventions: literals, whitespace, separators, case, empty arguments.
    Property theorems only; proofs are in Proofs/LexicalProofs.v.  Lexer rule order / regex texts and the grammar
    tables are checked / generated from the live code (Gen/Grammar.v: lexer_gen_ok, grammar_gen_ok). *)
-From HX Require Import Model.Base Model.Lexer Model.Value Model.Operators Model.Cell Model.Interp Proofs.LexicalProofs.
+From HX Require Import Model.Base Model.Lexer Model.Value Model.Operators Model.Cell Model.Interp Proofs.LexicalProofs Proofs.RefsProofs Proofs.CellProofs Proofs.Whitespace.
 Open Scope Z_scope.
 
 Theorem C05_generated_tables_understood : lexer_gen_ok = true /\ grammar_gen_ok = true /\ lexer_error_raises_name = true.
@@ -76,6 +76,19 @@ Example C05_examples :
   lex [49; 126] = LexError [Tok T_NUMBER [49]].
 Proof. vm_compute. repeat split; reflexivity. Qed.
 
+
+(* white space at ANY subset of the token boundaries (any amount, possibly none at each): the token sequence is unchanged
+   as long as, at every boundary, the local condition sep_ok on the token and the NEXT CHARACTER holds - punctuation
+   may be followed by anything, an atom (number, name, cell, text) by white space, an operator, a separator or a closing
+   bracket, a function name by "(" only (no white space there, as the property says) *)
+Theorem C05_whitespace_anywhere : forall ts ws, spaced ts ws -> lex (ws_render ts ws) = LexOk ts.
+Proof. exact whitespace_anywhere. Qed.
+Theorem C05_local_conditions_suffice : forall t r, sep_ok t r ->
+  lexeme t <> [] /\ tk t <> 0 /\ lex_one (lexeme t ++ r) = Some (tk t, length (lexeme t)).
+Proof. exact sep_ok_follows. Qed.
+Theorem C05_whitespace_example : spaced [Tok T_NUMBER [49]; Tok T_PLUS [43]; Tok T_NUMBER [50]] [[]; [32]; []].
+Proof. exact spaced_example. Qed.
+
 Print Assumptions C05_integer_literal.
 Print Assumptions C05_decimal_value.
 Print Assumptions C05_string_literal.
@@ -86,3 +99,5 @@ Print Assumptions C05_numbers_stand_alone.
 Print Assumptions C05_slots_and_separators.
 Print Assumptions C05_array_literals.
 Print Assumptions C05_cell_case_insensitive.
+Print Assumptions C05_whitespace_anywhere.
+Print Assumptions C05_local_conditions_suffice.
